@@ -21,26 +21,26 @@ def storeJ (s : DStore) : Json := Json.mkObj (s.docs.map (fun (id, d) => (id, J.
 /-! The System builds every location with the cron hooks (`cron.AddHooks`, system.go:757). The remove hook runs
 before every top-level `State.Rem` and starts with `state.Get(id)`: removing an id that is not there is an error
 through the System (it is not on a bare `core.Location`). Facts carry no schedule here, so the hooks do nothing else. -/
-def hookRem (id : String) (now : Int) : LM Bool := do
+def c17HookRem (id : String) (now : Int) : LM Bool := do
   let _ ← stGet id now
   stRem id now
 
 def locRemFactH (c : Ctx) (id : String) (now : Int) : LM String := do
-  runGuards c now (guardsOf "RemFact"); let _ ← hookRem id now; pure id
+  runGuards c now (guardsOf "RemFact"); let _ ← c17HookRem id now; pure id
 
 def locRemRuleH (c : Ctx) (id : String) (now : Int) : LM String := do
   runGuards c now (guardsOf "RemRule")
-  let _ ← hookRem id now
+  let _ ← c17HookRem id now
   let (_, found) ← getProp id "disabled" (.bool false) now
   if found then do
-    let _ ← hookRem (genPropId id "disabled") now
+    let _ ← c17HookRem (genPropId id "disabled") now
     pure id
   else pure id
 
 def locEnableRuleH (c : Ctx) (id : String) (enable : Bool) (now : Int) : LM Unit := do
   runGuards c now (guardsOf "EnableRule")
   if enable then do
-    let _ ← hookRem (genPropId id "disabled") now
+    let _ ← c17HookRem (genPropId id "disabled") now
     pure ()
   else do
     let _ ← setProp id "disabled" (.bool true) now
